@@ -18,7 +18,11 @@ PARTIAL = (' The statements are about the executable Lean model; the model is ti
 CLAIMED = {
     'C01': dict(text='Proved for every tree / Cfg: C01_roundtrip, C01_reflatten, C01_machine, C01_flatten_sane (unflatten inverts flatten exactly; '
                      'mutual structural induction, no size bound), C01_leaf_count (any list of exactly num_leaves replacement leaves is accepted, '
-                     'every other length is a ValueError). That the replacement leaves come back from a re-flatten: implementation oracle only.' + PARTIAL,
+                     'every other length is a ValueError), C01_replace_leaves (unflattening with any n leaf-typed replacement objects builds a tree that '
+                     'flattens back to exactly those n objects and the identical treespec; mutual structural induction in Lemmas/Replace.lean, dict '
+                     'nodes rebuilt in insertion order and re-visited in the same sorted order; hypothesis PredOnLeaves = the is_leaf predicate '
+                     'does not fire on the rebuilt containers, shown necessary by C01_replace_needs_stable_predicate), C01_replace_leaves_nopred, '
+                     'C01_leafObj_leaf.' + PARTIAL,
                 technique='Lean 4 proof (mutual structural induction) + correspondence', ref='6 C01'),
     'C02': dict(text='Proved: C02_leaf_order (flatten leaves = documented order leavesOf, all trees/configs), C02_none_filter, C02_pred_refines, '
                      'C02_sort_perm / C02_sort_fallback, classification lemmas C02_kind_*, C02_pred_first, C02_sort_canonical (keys on which < is a '
